@@ -746,6 +746,20 @@ def stream_cmp(rng, tier):
                     if f == "u" and ("é" in a or "é" in b):
                         continue
                     yield "cmp %s %s %s %s" % (f, kind, hx(a), hx(b))
+    # every delimiter a component may hold literally, against its escaped spelling: equal after
+    # percent-decoding, whatever the character means to an application (`&`, `=`, `+`, `;` in a query)
+    delims = {"segment": "!$&'()*+,;=:@", "userinfo": "!$&'()*+,;=:", "host": "!$&'()*+,;=",
+              "query": "!$&'()*+,;=:@/?", "fragment": "!$&'()*+,;=:@/?"}
+    wrap = {"segment": "s://h/p/%s?q#f", "userinfo": "s://%s@h/p", "host": "s://%s/p", "query": "s://h/p?%s#f", "fragment": "s://h/p?q#%s"}
+    for kind, ds in delims.items():
+        for d in ds:
+            lit, esc, esl = "k" + d + "v", "k%%%02X" % ord(d) + "v", "k%%%02x" % ord(d) + "v"
+            for a, b in [(lit, esc), (esc, lit), (esc, esl), (lit, lit), (lit, "k" + ("-" if d != "-" else "_") + "v")]:
+                for f in "ui":
+                    yield "cmp %s %s %s %s" % (f, kind, hx(a), hx(b))
+                    yield "cmp %s full %s %s" % (f, hx(wrap[kind] % a), hx(wrap[kind] % b))
+                    yield "cmp %s ref %s %s" % (f, hx((wrap[kind] % a)[2:]), hx((wrap[kind] % b)[2:]))
+                yield "cross u %s %s" % (hx(wrap[kind] % a), hx(wrap[kind] % b))
     paths = ["", "/", "a", "/a", "a/", "a/.", "a/./", "a/b/..", "a/b/../", "..", "../a", "a/../..",
              "/..", "/a/..", "//", "/./", "./", ".", "a//b", "a/b", "%61", "a/%2E", "a/./b", "/.//a",
              "//a", "a/../b", "b", "%2e", "a/%2E%2E/..", "%2e%2e/..", "/%2E%2E/../b", "/b", "a/%2E/..",
@@ -775,6 +789,16 @@ def stream_cmp(rng, tier):
             yield "cmp u fullref %s %s" % (hx(a), hx(b))
             yield "cmp i full %s %s" % (hx(a), hx(b))
     refs += ["s:a?z", "s:b?y", "s:a#z", "s:b#y", "s://h/a?z", "s://h/b?y", "s://g/a?z#1", "s://h/a?y#2"]
+    # two components that order the pair in opposite directions: every adjacent pair of components
+    opp = [("a:b?x#2", "a:b?y#1"), ("s://h/p#b", "s://h/p?q#a"), ("s://g/b", "s://h/a"), ("s://h:2/a", "s://h:1/b"),
+           ("s://u@h/b", "s://v@h/a"), ("a://z", "b://y"), ("s://h/a?2", "s://h/b?1"), ("s:a#2", "s:b#1"), ("s://g?2", "s://h?1")]
+    for a, b in opp:
+        for x, y in [(a, b), (b, a)]:
+            for f in "ui":
+                yield "cmp %s full %s %s" % (f, hx(x), hx(y))
+                yield "cmp %s ref %s %s" % (f, hx(x), hx(y))
+                yield "cmp %s fullref %s %s" % (f, hx(x), hx(y)) if f == "u" else "cmp i ref %s %s" % (hx(x.split(":", 1)[1]), hx(y.split(":", 1)[1]))
+                yield "cross %s %s %s" % (f, hx(x), hx(y))
     refs += ["s:a:b", "s:a%3Ab", "s:./a:b", "s:a:./b", "urn:isbn:1", "urn:isbn%3A1", "urn:./isbn:1", "s:a:b/c", "s:x/../a:b"]
     rels = ["", "a", "./a", "a/b", "/a", "//h", "//h/a", "?q", "#f", "a?q#f", "../a", "a/..", "%61"]
     for a in rels + refs[:8]:
